@@ -412,4 +412,29 @@ theorem fromEnv_error (env : EnvMap) (err : Err) (h : fromEnv env = .error err) 
     exact ⟨.savepointInterval, .getUsize, by decide, rfl, by simp [getterSem, Field.envKey, hk, hp]⟩
   | ok v9 => simp [h9] at h
 
+/-! ### `load` -/
+
+theorem stripOrd_iff (name key : String) : stripOrd name = some key ↔ name = "ORD_" ++ key := by
+  unfold stripOrd
+  constructor
+  · intro h
+    split at h
+    · rename_i rest hl
+      injection h with h
+      subst h
+      apply String.toList_inj.mp
+      simp [hl, String.toList_append]
+    · cases h
+  · intro h
+    subst h
+    simp [String.toList_append]
+
+theorem loadEnv_eq (vars : List (String × String)) (key : String) :
+    loadEnv vars key = (vars.reverse.find? (fun kv => decide (kv.1 = "ORD_" ++ key))).map (·.2) := by
+  unfold loadEnv
+  congr 2
+  funext kv
+  rw [Bool.eq_iff_iff]
+  simp [stripOrd_iff]
+
 end Ord.Settings
